@@ -322,7 +322,8 @@ def step (line : String) : String :=
                   let outs := st.out.map fun o => s!"{indexOfFinding fsx o.f}:{boolStr o.asInternal}:{toHex o.remark}"
                   let uns := ms.map fun m => boolStr (!(nomsg.any fun s => Spec.active cfg.useGlobal m s && Spec.matchesB env s m))
                   let exact := nomsg.all fun s => globExact s.errorId && globExact s.symbolName
-                  s!"A {if (a1 ++ a2).isEmpty then "_" else ",".intercalate (a1 ++ a2)} O {if outs.isEmpty then "_" else ",".intercalate outs} X {st.exitCode} N {flagsStr st.nomsg} M {flagsStr st.nofail} | unsup={if uns.isEmpty then "_" else "".intercalate uns} exact={boolStr exact}"
+                  let later := ms.map fun m => boolStr (nomsg.any fun s => Spec.active true m s && Spec.matchesB env s m)
+                  s!"A {if (a1 ++ a2).isEmpty then "_" else ",".intercalate (a1 ++ a2)} O {if outs.isEmpty then "_" else ",".intercalate outs} X {st.exitCode} N {flagsStr st.nomsg} M {flagsStr st.nofail} | unsup={if uns.isEmpty then "_" else "".intercalate uns} later={if later.isEmpty then "_" else "".intercalate later} exact={boolStr exact}"
               | _ => "bad-op"
             | none => "bad-op"
           | _ => "bad-op"
